@@ -512,7 +512,9 @@ def grammar_sig(name):
     return "pub fn %s<'s>(input: &mut &'s str) -> (r: PResult<%s, %s>)" % (name, GRAMMAR[name]['O'], E_STR)
 
 
-GRAMMAR_CONTRACT_T = "    ensures\n        (r matches Ok(o) ==> %s_acc(*old(input), o, *final(input))),\n        (r is Err ==> %s_rej(*old(input))),"
+GRAMMAR_CONTRACT_T = "    ensures\n        (r is Ok ==> %s_acc(*old(input), r->Ok_0, *final(input))),\n        (r is Err ==> %s_rej(*old(input))),"
+# (the same fact once more with the rest as a bound variable: a caller that has to exhibit "some rest" finds the term in that form)
+GRAMMAR_CONTRACT_T2 = "        (r is Ok ==> exists|rest_: &'s str| rest_ == *final(input) && #[trigger] %s_acc(*old(input), r->Ok_0, rest_)),"
 
 
 def grammar_twins():
@@ -528,12 +530,12 @@ def grammar_twins():
         tw.append("pub broadcast axiom fn def_%s_acc<'s>(i: &'s str, o: %s, rest: &'s str)\n    ensures #[trigger] %s::accepts(&%s, i, o, rest) <==> %s_acc(i, o, rest);" % (n, O, q, n, n))
         tw.append("pub broadcast axiom fn def_%s_rej<'s>(i: &'s str)\n    ensures #[trigger] %s::rejects(&%s, i) <==> %s_rej(i);" % (n, q, n, n))
         tw.append("pub broadcast axiom fn def_%s_pre<'s>(i: &'s str)\n    ensures #[trigger] %s::pre(&%s, i);" % (n, q, n))
-        tw.append("#[verifier::external_body]\n%s\n%s\n{ unimplemented!() }" % (grammar_sig(n), GRAMMAR_CONTRACT_T % (n, n)))
+        tw.append("#[verifier::external_body]\n%s\n%s\n%s\n{ unimplemented!() }" % (grammar_sig(n), GRAMMAR_CONTRACT_T % (n, n), GRAMMAR_CONTRACT_T2 % n))
     tw.append('pub broadcast group grammar_defs { %s }' % ', '.join('def_%s_%s' % (n, k) for n in GRAMMAR_ORDER for k in ('acc', 'rej', 'pre')))
     return '\n'.join(tw)
 
 
-GRAMMAR_CONTRACT = "    ensures\n        (r matches Ok(o) ==> %s_acc(*old(input), o, *final(input))),\n        (r is Err ==> %s_rej(*old(input))),"
+GRAMMAR_CONTRACT = "    ensures\n        (r is Ok ==> %s_acc(*old(input), r->Ok_0, *final(input))),\n        (r is Err ==> %s_rej(*old(input))),"
 
 EXTRAS_SPEC = """pub open spec fn extras_vals(e: Option<Extras>, r: (Vec<Identifier>, Vec<Identifier>)) -> bool {
     match e {
@@ -744,3 +746,24 @@ pub fn verif_std_flatten(sets: Vec<Vec<BoundSet>>) -> (r: Vec<BoundSet>)
     ensures r@ == flat_sets(sets@),
 { sets.into_iter().flatten().collect() }
 """
+
+
+GRAMMAR['range_set'] = dict(
+    src='rng', O='Range',
+    acc="exists|sets: Vec<BoundSet>| #[trigger] bound_sets_acc(i, sets, rest) && sets@.len() > 0 && o.0@ == sets@",
+    rej="exists|sets: Vec<BoundSet>, r2: &'s str| #[trigger] bound_sets_acc(i, sets, r2) && sets@.len() == 0",
+    rewrites=[("|sets| {", "|sets: Vec<BoundSet>| -> (r: Result<Range, SemverParseError<&'s str>>) ensures (r is Err) <==> sets@.len() == 0, r matches Ok(x) ==> x.0@ == sets@ {", 'closure parameter typed, contract')],
+    entry='')
+GRAMMAR_ORDER = GRAMMAR_ORDER + ['range_set']
+RANGE_SET_SPEC = """// range_set_reads(i, o) is `exists rest. range_set_acc(i, o, rest)`, introduced by name with its two defining axioms (Verus does not find the
+// witness of that existential in Range::parse's postcondition, although the instance is among its hypotheses)
+pub uninterp spec fn range_set_reads<'s>(i: &'s str, o: Range) -> bool;
+pub broadcast axiom fn def_range_set_reads_intro<'s>(i: &'s str, o: Range, rest: &'s str)
+    ensures #[trigger] range_set_acc(i, o, rest) ==> range_set_reads(i, o);
+pub broadcast axiom fn def_range_set_reads_elim<'s>(i: &'s str, o: Range)
+    ensures #[trigger] range_set_reads(i, o) ==> exists|rest: &'s str| range_set_acc(i, o, rest);
+"""
+
+RPARSE_CONTRACT = """        ensures
+            (r is Ok ==> range_set_reads(text, r->Ok_0)),  // @Range::parse#what-range_set-reads
+            (r is Err ==> range_set_rej(text)),  // @Range::parse#fails-only-without-an-alternative"""
